@@ -178,4 +178,79 @@ def plan():
     P["C11"] = [steady(0, 2, 3, ("quick", "thorough")), steady(4, 2, 3, ("quick", "thorough")), steady(1, 1, 2, ("quick", "thorough")), steady(0, 1, 1, ("quick", "thorough")), absw(0, False, ("quick", "thorough")), absw(4, False, ("quick", "thorough")),
                 classify(0, ("quick", "thorough"))] + \
         [steady(c, w, n, ("thorough",)) for c in (1, 2, 3, 4) for (w, n) in ((1, 3), (2, 4), (3, 4))] + [absw(c, False, ("thorough",)) for c in (1, 2, 3)]
+    # ---------------- C05
+    lib_rules = R_STATE
+    def libh(name, body, covers, tiers, desc, funcs, bounds, mem=16, timeout=1800):
+        return H(name, body, mod="lib", macro="h_lib", unwind=4, tiers=tiers, covers=covers, rules=lib_rules, funcs=funcs, bounds=bounds, desc=desc, mem=mem, timeout=timeout,
+                 cuts=[CUT_LISTENER, "Chitchat built by struct literal with the smallest configuration (window 2, cluster id 'c', ids 1 byte)"])
+    def lib_hb(sit, tiers, mem=16):
+        names = {0: "member absent", 1: "member present (stored heartbeat symbolic)", 2: "member remembered as garbage collected", 3: "the node's own id"}
+        cov = {1: ["fresh heartbeat reported to the detector"], 2: ["garbage-collected member recreated by a higher heartbeat"]}.get(sit, [])
+        return libh(f"lib_hb_{sit}", f"lib_report_heartbeat({sit})", cov, tiers, "real Chitchat::report_heartbeat / NodeState::try_set_heartbeat / FailureDetector::report_heartbeat",
+                    ["lib.rs::Chitchat::report_heartbeat", "state.rs::NodeState::try_set_heartbeat", "state.rs::ClusterState::{node_state_mut_or_init,last_heartbeat_if_deleted,remove_node}", "failure_detector.rs::FailureDetector::report_heartbeat"],
+                    {"situation": names[sit], "heartbeats": "u64 full width, symbolic"}, mem=mem)
+    def c05(mask, n, tiers):
+        return H(f"c05_{m3(mask)}_{n}", f"c05_not_ahead({mask}, {n}, 7)", tiers=tiers, covers=["section with key-values"] if n else [], funcs=F_APPLY, cuts=[CUT_LISTENER],
+                 bounds=dict(B3, owner_mask=m3(mask), delta="any section with %d key-values whose max version and watermark are not above the owner's max version" % n),
+                 desc="a delta section from a source that is not ahead of the owner changes nothing")
+    P["C05"] = [c05(0b011, 1, ("quick", "thorough")), c05(0b011, 0, ("quick", "thorough")), lib_hb(3, ("quick", "thorough")), snd_decision(False, ("quick", "thorough")),
+                c05(0b111, 2, ("thorough",)), c05(0b001, 3, ("thorough",)), c05(0b000, 1, ("thorough",)), snd_decision(True, ("thorough",))]
+    # ---------------- C07
+    def ser_ub(a, b, c, thr, n, tiers):
+        return H(f"ser_ub_{thr}_{a}_{b}_{c}_{n}", f"ser_upper_bound::<{a}, {b}, {c}>({thr}, {n})", mod="serialize", macro="h_ser", unwind=40, tiers=tiers, rules=[(r"^memcmp", None, 18)],
+                 covers=["upper bound attained exactly (last block stored raw)"], funcs=["serialize.rs::CompressedStreamWriter::{with_block_threshold,serialized_len_upperbound_after,append,flush_block,finish}"],
+                 cuts=["zstd = any-length codec model (compress returns any length <= input, or fails)"], bounds={"block_threshold": thr, "items": f"{n} byte-array items of lengths {[a, b, c][:n]} (each <= one block), contents symbolic"},
+                 desc="finished stream never longer than the upper bound announced before the last append", mem=6)
+    P["C07"] = [ser_ub(3, 5, 3, 8, 3, ("quick", "thorough")), ser_ub(6, 7, 1, 8, 2, ("quick", "thorough")), ser_ub(8, 8, 8, 8, 3, ("quick", "thorough")), snd_content(0b011, ("quick", "thorough")),
+                snd_decision(False, ("quick", "thorough")), ser_ub(1, 1, 1, 8, 3, ("thorough",)), ser_ub(7, 2, 8, 8, 3, ("thorough",)), ser_ub(16, 3, 14, 16, 3, ("thorough",)), ser_ub(5, 12, 16, 16, 3, ("thorough",)),
+                snd_content(0b111, ("thorough",)), snd_content(0b001, ("thorough",)), snd_content(0b101, ("thorough",)), snd_decision(True, ("thorough",)),
+                snd_full(0b000), snd_full(0b001), snd_full(0b011)]
+    # ---------------- C09
+    def c09(mask, n, tiers):
+        return H(f"c09_{m3(mask)}_{n}", f"c09_hostile_delta({mask}, {n}, 7)", tiers=tiers, covers=["reset taken", "incremental"] if n else ["reset taken"], funcs=F_APPLY, cuts=[CUT_LISTENER],
+                 bounds=dict(B3, copy_mask=m3(mask), delta="any header, %d key-values with strictly increasing versions, any max version >= the last one (what the decoder admits)" % n),
+                 desc="deltas only a hostile peer can send: no panic, frontier monotone")
+    def grouping(kinds, n, tiers):
+        names = "NKS"
+        label = "".join(names[k] for k in kinds[:n])
+        return H(f"delta_group_{label}", f"delta_grouping({n}, {kinds[0]}, {kinds[1]}, {kinds[2]})", mod="delta", macro="h_delta", unwind=5, tiers=tiers, rules=R_COMMON,
+                 covers=["multi-op sequence accepted", "sequence refused"] if kinds[0] == 0 and n >= 2 else ["sequence refused"], funcs=["delta.rs::DeltaBuilder::{apply_op,flush,finish}"],
+                 bounds={"ops": f"{n} ops of kinds {label} (N = member header, K = key-value, S = SetMaxVersion), payloads symbolic, member ids in {{x, y}}"},
+                 desc="decoder grouping/validation of an op sequence against the reference grouping", mem=12, timeout=1500)
+    P["C09"] = [c09(0b001, 2, ("quick", "thorough")), c09(0b011, 1, ("quick", "thorough")), grouping((0, 1, 2), 3, ("quick", "thorough")), grouping((1, 0, 0), 2, ("quick", "thorough")),
+                grouping((0, 1, 0), 2, ("quick", "thorough")), grouping((2, 0, 0), 1, ("quick", "thorough"))] + \
+        [c09(m, n, ("thorough",)) for m in (0b000, 0b011, 0b111) for n in (0, 2, 3)] + [grouping((0, 2, 1), 3, ("thorough",)), grouping((0, 1, 1), 3, ("thorough",)), grouping((0, 2, 2), 3, ("thorough",))]
+    P["C03"] += [grouping((0, 1, 2), 3, ("quick", "thorough")), grouping((0, 1, 1), 3, ("thorough",))]
+    # ---------------- C12
+    def fd_sched(grace, tiers):
+        return H(f"fd_sched_{grace}", f"fd_schedule_gc({grace})", mod="failure_detector", macro="h_fd", unwind=6, tiers=tiers, rules=R_COMMON, covers=["scheduled for deletion", "not yet scheduled"],
+                 funcs=["failure_detector.rs::FailureDetector::{scheduled_for_deletion_nodes,garbage_collect}"], bounds={"dead_node_grace_period_s": grace, "time_since_death": "symbolic, 0..4x grace, nanosecond resolution"},
+                 desc="scheduled-for-deletion after half the grace period, removal at the full period", cuts=["clock = vstd::time::NOW"], mem=6)
+    P["C12"] = [fd_sched(86400, ("quick", "thorough")), fd_sched(10, ("quick", "thorough")), lib_hb(0, ("quick", "thorough")), lib_hb(2, ("thorough",), mem=30), lib_hb(1, ("thorough",), mem=20),
+                snd_decision(False, ("quick", "thorough")), classify(0, ("quick", "thorough")), classify(4, ("thorough",)), fd_sched(3600, ("thorough",)), snd_decision(True, ("thorough",))]
+    P["C11"] += [lib_hb(0, ("quick", "thorough")), lib_hb(1, ("thorough",), mem=20)]
+    # ---------------- C15
+    PFX = {0: "''", 1: "'a'", 2: "'e-acute'", 3: "'a e-acute'", 4: "'grinning-face (4 bytes)'"}
+    def c15d(p0, p1, two, drop, forever, tiers):
+        return H(f"c15_d_{p0}_{p1 if two else 'x'}{'_drop' if drop else ''}{'_fv' if forever else ''}", f"c15_dispatch({p0}, {p1}, {str(two).lower()}, {str(drop).lower()}, {str(forever).lower()})",
+                 mod="listener", macro="h_lst", unwind=6, tiers=tiers, rules=[(r"^memcmp", None, 9)], covers=["key starts with a multi-byte character"],
+                 funcs=["listener.rs::Listeners::{subscribe_event,trigger_event}", "listener.rs::InnerListeners::{subscribe_event,trigger_event,remove_listener}", "listener.rs::ListenerHandle::{forever,drop}", "lib.rs::KeyChangeEvent::strip_key_prefix"],
+                 bounds={"prefixes": [PFX[p0]] + ([PFX[p1]] if two else []), "key": "0..=2 symbols chosen by the solver from {a (1 byte), e-acute (2 bytes), grinning-face (4 bytes)}", "first_handle_dropped": drop, "second_handle_forever": forever},
+                 desc="each live subscription is called exactly once iff its prefix is a prefix of the key, with the stripped key", mem=14, timeout=1800, cuts=["callbacks are plain fn pointers bumping per-subscription counters"])
+    def c15n(w, tiers):
+        return H(f"c15_nopanic_{int(w)}", f"c15_any_key_no_panic({str(w).lower()})", mod="listener", macro="h_lst", unwind=6, tiers=tiers, rules=[(r"^memcmp", None, 9)], covers=["three-byte first character"],
+                 funcs=["listener.rs::InnerListeners::trigger_event"], bounds={"key": "0..=2 arbitrary chars (all UTF-8 encodings of 1-4 bytes)", "subscriptions": "none" if not w else "one, empty prefix"},
+                 desc="dispatch never panics on any key (F-2 regression check)", mem=14, timeout=1800)
+    P["C15"] = [c15n(False, ("quick", "thorough")), c15d(1, 0, False, False, False, ("quick", "thorough")), c15d(2, 0, True, False, False, ("quick", "thorough")), c15d(1, 3, True, True, True, ("quick", "thorough")),
+                c15n(True, ("thorough",))] + [c15d(a, b, True, False, False, ("thorough",)) for (a, b) in ((0, 1), (1, 3), (2, 4), (3, 4), (0, 4), (1, 2))] + \
+        [c15d(3, 0, False, False, False, ("thorough",)), c15d(4, 0, False, False, False, ("thorough",)), c15d(0, 1, True, True, False, ("thorough",)), c15d(2, 2, True, False, True, ("thorough",))]
+    # ---------------- C17
+    def c17(n, tiers):
+        return H(f"c17_{n}", f"c17_select({n})", mod="server", macro="h_srv", unwind=6, tiers=tiers, rules=R_COMMON, cap=4,
+                 covers=["isolated with a seed known", "dead peer contacted"] + (["three targets"] if n >= 3 else []),
+                 funcs=["server.rs::select_nodes_for_gossip", "server.rs::select_dead_node_to_gossip_with", "server.rs::select_seed_node_to_gossip_with"],
+                 bounds={"addresses": n, "membership": "peers/live/dead/seeds symbolic per address (live, dead disjoint subsets of peers)", "random_generator": "every draw symbolic; sample/choose by contract"},
+                 cuts=["rand::seq::IteratorRandom::{sample,choose} modelled by contract (any admissible selection)", "--nan-check off (0/0 probability is computed and short-circuited)"],
+                 desc="at most 3 distinct targets from the right pool; dead/seed picks from their sets; seed contacted when isolated; dead contacted when dead > live", mem=8)
+    P["C17"] = [c17(2, ("quick", "thorough")), c17(3, ("quick", "thorough")), c17(4, ("thorough",)), c17(1, ("quick", "thorough"))]
     return P
